@@ -4,7 +4,10 @@ the reference executor), one predicate family per property."""
 from .. import configs as C
 from .. import runner as R
 
-PROPS = ("C01", "C02", "C03", "C04", "C08", "C11", "C12")
+PROPS = ("C01", "C02", "C03", "C04", "C08", "C09", "C11", "C12")
+
+C09_WEIGHTS = {"None": 3, "SingleMemory": 7, "SingleDisk": 10, "Multistage": 3, "Mixed": 3, "TwoLevel": 14,
+               "Revolve": 2, "DiskRevolve": 2, "PeriodicDiskRevolve": 2, "HRevolve": 3}
 
 RULES = {
     "C01": "non-trivial = stream contains >=1 checkpoint load into WORK and >=1 recomputation Forward after EndForward (storage is a real constraint); distinct = distinct config hash",
@@ -12,6 +15,7 @@ RULES = {
     "C03": "non-trivial = peak occupancy of RAM or DISK equals its finite declared budget and total units < n-1; distinct = distinct config hash",
     "C04": "non-trivial = at least one checkpoint written to RAM/DISK (label 'disk_restart_copy' = a DISK restart checkpoint loaded by Copy, the leak-prone shape, counted in regions); distinct = distinct config hash",
     "C08": "non-trivial = online schedule finalised inside a multi-step Forward, or adjoint pass >=2 executed, or a recomputation Forward present; distinct = distinct config hash",
+    "C09": "every case: flags read before the first next() and after every action, stream driven 3 next() calls past its end; non-trivial = >=2 adjoint passes executed on a multi-pass class (repeat compared tuple-for-tuple with pass 1 and re-executed), or a single-/zero-pass class driven past its end; distinct = distinct config hash",
     "C11": "non-trivial = stream touches both RAM and DISK, or class in {DiskRevolve, PeriodicDiskRevolve, TwoLevel with RAM binomial storage, Multistage with ram>0 and disk>0}; distinct = distinct config hash",
     "C12": "non-trivial = stream contains >=1 checkpoint load into WORK and >=1 recomputation Forward after EndForward; distinct = distinct config hash",
 }
@@ -38,6 +42,8 @@ def nontrivial(prop, cfg, r):
         return r["ramwrites"] + r["dwrites"] >= 1
     if prop == "C08":
         return r["fin_inside_multistep"] or r["passes_done"] >= 2 or r["recompute_fwd"] >= 1
+    if prop == "C09":
+        return r["passes_done"] >= 2 or (C.permitted_passes(cfg) is not None and r.get("completed"))
     if prop == "C11":
         c = cfg["cls"]
         return (r["touched"]["RAM"] and r["touched"]["DISK"]) or c in ("DiskRevolve", "PeriodicDiskRevolve") or \
@@ -99,8 +105,8 @@ def _exec(cfg):
 
 
 def _shard(job):
-    tier, seed, shard, count = job
-    cfgs = C.generate(C.sweep_strategy(tier), count, seed * 1000 + shard)
+    tier, seed, shard, count, weights = job
+    cfgs = C.generate(C.sweep_strategy(tier, weights=weights), count, seed * 1000 + shard)
     from .. import monitor
     return [monitor.execute(c) for c in cfgs]
 
@@ -110,11 +116,11 @@ def _compact(r):
     return r
 
 
-def sweep(tier, seed):
+def sweep(tier, seed, weights=None):
     count, shards = SIZES[tier]
     boxcfgs = list(C.box(tier))
     box_results = R.pmap(_exec, boxcfgs)
-    gen = R.pmap(_shard, [(tier, seed, s, count) for s in range(shards)], chunksize=1)
+    gen = R.pmap(_shard, [(tier, seed, s, count, weights) for s in range(shards)], chunksize=1)
     gen_results = [r for part in gen for r in part]
     return boxcfgs, box_results, gen_results
 
@@ -123,7 +129,7 @@ def run(prop, args):
     rep = R.Report(prop, args, RULES[prop])
     if args.replay:
         return replay(prop, args, rep)
-    boxcfgs, box_results, gen_results = sweep(args.tier, args.seed)
+    boxcfgs, box_results, gen_results = sweep(args.tier, args.seed, C09_WEIGHTS if prop == "C09" else None)
     N = 10 if args.tier == "quick" else 24
     rep.exhaustive = [{"box": "every class variant, n<=%d, all unit counts 0..n+1 (HRevolve RAM<=6, DISK<=4), all splits/trajectories/storages, period<=6, binomial_snapshots<=4, 6 cost vectors" % N,
                        "cases": len(boxcfgs), "exhaustive": True}]
@@ -158,7 +164,7 @@ def run(prop, args):
             if "actions" in r:
                 rep.sample(sample_of(r["cfg"], r))
     need = {"C01": [], "C02": [], "C03": [], "C04": ["disk-restart-checkpoint-loaded-by-copy"],
-            "C08": ["pass>=2", "finalised-inside-multistep-forward"], "C11": ["multistage:ram+disk"], "C12": []}
+            "C08": ["pass>=2", "finalised-inside-multistep-forward"], "C09": ["pass>=2"], "C11": ["multistage:ram+disk"], "C12": []}
     base_regions = ["multistage:ram+disk", "twolevel:period!=2", "twolevel:disk-binomial-storage", "twolevel:revolve-trajectory",
                     "revolve-family:uf!=ub", "revolve-family:disk-written", "max_n=1", "units>=n", "pass>=2"]
     missing = [g for g in base_regions if rep.regions.get(g, 0) == 0]
